@@ -66,7 +66,9 @@ import Apko.Proofs.C08
 import Apko.Proofs.Lemmas.CacheStep
 import Apko.Proofs.Lemmas.CacheLive
 import Apko.Proofs.Lemmas.CacheSig
+import Apko.Proofs.Lemmas.CacheGlue
 import Apko.Generated.Cache
+import Apko.Generated.CacheGlue
 
 set_option linter.unusedSimpArgs false
 
@@ -1020,8 +1022,10 @@ theorem offline_safe (fs : FS) (hg : GoodFS fs.get) (cands : List Name) (obs : L
         exact (good_resolve hg (by rw [← resolve_eq]; exact hres)).1
 
 /-- the situation DESIGN.md names: revision 7 is cached and advertised, a later build for revision 8
-was killed mid-body; `fetchOffline` selects the newer, partial `*.tmp` and the offline build fails
-(an error, not wrong content) although a complete older revision is in the cache. -/
+was killed mid-body.  Before the fix F19e `fetchOffline` chose among ALL files of the directory: it selected
+the newer, partial `*.tmp` and the offline build failed (for an index: an error, not wrong content — a key has
+no integrity check, see `offline_served_partial_tmp_before_fix`) although a complete older revision is in the
+cache.  The repaired `fetchOffline` looks at advertised entries only and reproduces revision 7. -/
 def partialTmpFS : FS :=
   (((FS.empty.set (.tmp 0) (some (.file 7 true))).set (.adv 7) (some (.link (.tmp 0)))).set
     (.tmp 1) (some (.file 8 false)))
@@ -1029,7 +1033,7 @@ def partialTmpFS : FS :=
 theorem offline_partial_tmp_is_error :
     partialTmpFS.newest [.adv 7, .tmp 0, .tmp 1] = some (.tmp 1) ∧
     (exec partialTmpFS (fun _ => .unborn) [] (indexOffline [.adv 7, .tmp 0, .tmp 1])).2.2.2 = false ∧
-    (exec partialTmpFS (fun _ => .unborn) [] (indexOffline [.adv 7, .tmp 0])).2.2 = ([(.adv 7, 7, true)], true) := by
+    (exec partialTmpFS (fun _ => .unborn) [] (indexOffline [.adv 7])).2.2 = ([(.adv 7, 7, true)], true) := by
   decide
 
 /-! ### request coalescing -/
@@ -1115,5 +1119,207 @@ theorem tie_next : Generated.cache_nextCalls =
 
 theorem tie_temp_patterns : Generated.cache_indexTempPattern = "*.tmp" ∧
     Generated.cache_expandDirPattern = "expand-apk" := ⟨rfl, rfl⟩
+
+/-! ### the glue around the ETag-addressed entries (`Model/CacheGlue.lean`)
+
+Which entry answers a request is decided by `cacheTransport.head` (HEAD memo of the `*apk.Cache` value, else a
+HEAD request), `get` (`os.Stat` of the entry named by that ETag), `retrieveAndSaveFile` and, offline,
+`fetchOffline`.  The statements below are about EVERY history (`List Ev`: repository updates, requests through any
+number of cache objects with or without a memo, cut connections, offline requests, process exits) that respects
+the server assumption (`Glue.Legal`), for EVERY configuration that keys the HEAD memo injectively and returns the
+copy error — `cfgReal` is one, the ties at the end of this file pin the code to it. -/
+
+section glue
+open Apko.CacheGlue Apko.C19.Glue
+
+/-- **transparency invariant**: in every reachable state every advertised etag entry holds the COMPLETE body the
+server served under that ETag for a URL of the entry's directory, and every remembered HEAD answer is an ETag the
+server served for the URL it is remembered for -/
+theorem glue_entries_authentic (cfg : Cfg) (hk : MemoKeyInj cfg) (hce : cfg.copyErrKept = true) (evs : List Ev)
+    (hl : Legal cfg evs {}) : EntriesOk cfg (run cfg evs {}) ∧ MemoOk cfg (run cfg evs {}) :=
+  let h := run_inv hk hce evs {} (inv_empty cfg) hl
+  ⟨h.entries, h.memo⟩
+
+/-- after any history, whatever a request through the caching transport hands to its caller — warm or cold, with
+or without a memo, with the connection cut or not — is a COMPLETE body the server served under the requested URL
+(never another URL's body, never a short one), or an error -/
+theorem glue_answer_authentic (cfg : Cfg) (hk : MemoKeyInj cfg) (hce : cfg.copyErrKept = true) (evs : List Ev)
+    (hl : Legal cfg evs {}) (c : CacheId) (m : Bool) (u : Url) (cut : Bool) (b : Body) (compl : Bool)
+    (h : (fetch cfg (run cfg evs {}) c m u cut).2 = some (b, compl)) :
+    compl = true ∧ ∃ e, (u, e, b) ∈ (run cfg evs {}).srv :=
+  (fetch_spec hk hce (run_inv hk hce evs {} (inv_empty cfg) hl) c m u cut).2.2 b compl h
+
+/-- **a build is transparent**: after any history, the requests of one build (keyring entries, index) through a
+cache object whose memo holds current ETags only — a cache object made for this build (`memoCurrent_fresh`), any
+cache object right after a process start (`memoCurrent_exit`) — are answered exactly as without the disk cache:
+each with the body the server serves now -/
+theorem glue_build_transparent (cfg : Cfg) (hk : MemoKeyInj cfg) (hce : cfg.copyErrKept = true) (evs : List Ev)
+    (hl : Legal cfg evs {}) (c : CacheId) (us : List Url) (hm : MemoCurrent cfg (run cfg evs {}) c) :
+    (fetchAll cfg c true (us.map fun u => (u, false)) (run cfg evs {})).2 = us.map (direct (run cfg evs {})) := by
+  have h := (fetchAll_transparent hk hce c true (us.map fun u => (u, false)) (run cfg evs {})
+    (run_inv hk hce evs {} (inv_empty cfg) hl) (fun _ => hm)
+    (by intro p hp; rw [List.mem_map] at hp; obtain ⟨u, -, rfl⟩ := hp; rfl)).1
+  rw [h, List.map_map]; rfl
+
+/-- **default options**: a cache object WITHOUT a HEAD memo (`options.Default.SharedCache = apk.NewCache(false)`,
+`tie_new_cache_sites`) is transparent at any time — across builds, repository updates and whatever else the
+process did before -/
+theorem glue_default_transparent (cfg : Cfg) (hk : MemoKeyInj cfg) (hce : cfg.copyErrKept = true) (evs : List Ev)
+    (hl : Legal cfg evs {}) (c : CacheId) (us : List Url) :
+    (fetchAll cfg c false (us.map fun u => (u, false)) (run cfg evs {})).2 = us.map (direct (run cfg evs {})) := by
+  have h := (fetchAll_transparent hk hce c false (us.map fun u => (u, false)) (run cfg evs {})
+    (run_inv hk hce evs {} (inv_empty cfg) hl) (fun h => by cases h)
+    (by intro p hp; rw [List.mem_map] at hp; obtain ⟨u, -, rfl⟩ := hp; rfl)).1
+  rw [h, List.map_map]; rfl
+
+/-- a cut connection: the caller gets an error (or the entry that was already there), the set of advertised
+entries does not change -/
+theorem glue_cut_advertises_nothing (cfg : Cfg) (hce : cfg.copyErrKept = true) (s : St) (c : CacheId) (m : Bool) (u : Url) :
+    ((fetch cfg s c m u true).1.files.filter fun f => f.etag.isSome) = s.files.filter (fun f => f.etag.isSome) :=
+  (cut_advertises_nothing hce s c m u).1
+
+/-- the full offline statement: an offline request is answered with an error or a complete body the server once
+served under the requested URL -/
+def offline_authentic (cfg : Cfg) : Prop :=
+  ∀ evs, Legal cfg evs {} → ∀ u b compl, fetchOffline cfg (run cfg evs {}) u = some (b, compl) →
+    compl = true ∧ ∃ e, (u, e, b) ∈ (run cfg evs {}).srv
+
+/-- it holds for every URL whose entry directory is its own (every index; a key that is alone in its remote
+directory) … -/
+theorem offline_authentic_partial (cfg : Cfg) (hk : MemoKeyInj cfg) (hce : cfg.copyErrKept = true)
+    (hskip : cfg.offlineSkipsTmp = true) (evs : List Ev) (hl : Legal cfg evs {}) (u : Url) (hown : DirOwn cfg u)
+    (b : Body) (compl : Bool) (h : fetchOffline cfg (run cfg evs {}) u = some (b, compl)) :
+    compl = true ∧ ∃ e, (u, e, b) ∈ (run cfg evs {}).srv :=
+  Glue.offline_authentic_partial hskip (run_inv hk hce evs {} (inv_empty cfg) hl) u hown b compl h
+
+/-- the entry directories of the suite's worlds: URL 0 (the index) has directory 0, every key URL directory 1 -/
+def keysDir : Url → Dir := fun u => if u = 0 then 0 else 1
+
+/-- … and FAILS for keys that share a remote directory (finding F19d, witness 1): both keys are fetched, then an
+offline request for key 1 is answered with the body of key 2 -/
+def sharedDirHistory : List Ev :=
+  [.publish 1 1 11, .publish 2 2 12, .fetch 1 true 1 false, .fetch 1 true 2 false]
+
+theorem offline_shared_directory_confuses_keys : ¬ offline_authentic (cfgReal keysDir) := by
+  intro h
+  have hl : Legal (cfgReal keysDir) sharedDirHistory {} := legalB_sound _ _ _ (by decide)
+  have := h sharedDirHistory hl 1 12 true (by decide)
+  obtain ⟨-, e, he⟩ := this
+  revert he
+  have : (run (cfgReal keysDir) sharedDirHistory {}).srv = [(2, 2, 12), (1, 1, 11)] := by decide
+  rw [this]
+  simp
+
+/-- the full online statement under the per-URL server assumption only (`Glue.UrlLegal`: an ETag identifies one
+body OF A URL; where every URL has an entry directory of its own that is all of `Glue.Legal`:
+`Glue.legal_of_urlLegal`) -/
+def online_authentic_urlwise : Prop :=
+  ∀ evs, UrlLegal (cfgReal keysDir) evs {} → ∀ c m u b compl, (fetch (cfgReal keysDir) (run (cfgReal keysDir) evs {}) c m u false).2 = some (b, compl) →
+    ∃ e, (u, e, b) ∈ (run (cfgReal keysDir) evs {}).srv
+
+/-- it FAILS (finding F19d, witness 2): two keys of one directory under one ETag value — the second request is
+answered with the first key (`glue_answer_authentic` is the statement under `Glue.Legal`, which excludes this
+server) -/
+theorem same_etag_collision : ¬ online_authentic_urlwise := by
+  intro h
+  have hl : UrlLegal (cfgReal keysDir) [.publish 1 5 11, .publish 2 5 12, .fetch 1 true 1 false] {} :=
+    urlLegalB_sound _ _ _ (by decide)
+  obtain ⟨e, he⟩ := h _ hl 1 true 2 11 true (by decide)
+  revert he
+  have : (run (cfgReal keysDir) [.publish 1 5 11, .publish 2 5 12, .fetch 1 true 1 false] {}).srv = [(2, 5, 12), (1, 5, 11)] := by decide
+  rw [this]
+  simp
+
+/-! #### what the regenerated facts guard: the same model with one choice changed -/
+
+/-- a memo-bearing cache object that outlives a build (`options.Default.SharedCache = apk.NewCache(true)`): after
+a repository update the second build is still answered with the first revision; the memo-less default is not -/
+theorem shared_memo_is_stale :
+    answers (cfgReal keysDir) [.publish 0 1 10, .fetch 0 true 0 false, .publish 0 2 20, .fetch 0 true 0 false] {}
+      = [some (10, true), some (10, true)] ∧
+    answers (cfgReal keysDir) [.publish 0 1 10, .fetch 0 false 0 false, .publish 0 2 20, .fetch 0 false 0 false] {}
+      = [some (10, true), some (20, true)] := by decide
+
+/-- the HEAD memo keyed by the entry DIRECTORY instead of the URL: the second key of a directory is answered with
+the first key's HEAD, hence with the first key's bytes -/
+theorem memo_keyed_by_directory_confuses_urls :
+    answers ⟨keysDir, keysDir, true, true⟩ [.publish 1 1 11, .publish 2 2 12, .fetch 7 true 1 false, .fetch 7 true 2 false] {}
+      = [some (11, true), some (11, true)] ∧
+    answers (cfgReal keysDir) [.publish 1 1 11, .publish 2 2 12, .fetch 7 true 1 false, .fetch 7 true 2 false] {}
+      = [some (11, true), some (12, true)] := by decide
+
+/-- `retrieveAndSaveFile` losing the error of `io.Copy` (a deferred `Close` that assigns to the result): the cut
+body is advertised under its ETag and answers every later request, online and offline, in every process -/
+theorem lost_copy_error_poisons :
+    answers ⟨keysDir, id, false, true⟩ [.publish 0 1 10, .fetch 1 true 0 true, .exit, .fetch 2 true 0 false, .offline 0] {}
+      = [some (10, false), some (10, false), some (10, false)] ∧
+    answers (cfgReal keysDir) [.publish 0 1 10, .fetch 1 true 0 true, .exit, .fetch 2 true 0 false, .offline 0] {}
+      = [none, some (10, true), some (10, true)] := by decide
+
+/-- F19e (fixed): `fetchOffline` choosing among all files of the directory served the partial temp file a cut
+download left behind -/
+theorem offline_served_partial_tmp_before_fix :
+    answers ⟨keysDir, id, true, false⟩ [.publish 1 1 11, .fetch 1 true 1 true, .offline 1] {} = [none, some (11, false)] ∧
+    answers (cfgReal keysDir) [.publish 1 1 11, .fetch 1 true 1 true, .offline 1] {} = [none, none] := by decide
+
+/-- the hypotheses are satisfiable by the code's configuration and a non-trivial history -/
+example : MemoKeyInj (cfgReal keysDir) ∧ (cfgReal keysDir).copyErrKept = true ∧
+    Legal (cfgReal keysDir) [.publish 0 1 10, .publish 1 2 11, .fetch 1 true 1 false, .fetch 1 true 0 true, .exit,
+      .publish 0 3 30, .fetch 2 true 0 false, .offline 0] {} :=
+  ⟨fun _ _ h => h, rfl, legalB_sound _ _ _ (by decide)⟩
+
+end glue
+
+/-! #### ties of the glue model -/
+
+/-- the HEAD memo (`load` / `store`) and the HEAD singleflight are keyed by the URL's cache file — `Cfg.memoKey` is
+the identity on URLs (`cachePathFromURL` of the request URL, handed down by `RoundTrip` and `fetchAndCache`) -/
+theorem tie_head_memo_key : Generated.cacheglue_headKeys =
+    ["t.cache.load(cacheFile)", "t.cache.headFlight.Do(cacheFile)", "t.cache.store(cacheFile)"] ∧
+    Generated.cacheglue_roundTripCacheFile = ["cacheFile, err := cachePathFromURL(t.root, *request.URL)",
+      "return t.fetchOffline(cacheFile)", "return t.fetchAndCache(ctx, request, cacheFile)"] ∧
+    Generated.cacheglue_fetchAndCacheCalls = ["t.head(request, cacheFile)", "t.get(ctx, request, cacheFile, initialEtag)",
+      "os.Open(etagFile)"] := ⟨rfl, rfl, rfl⟩
+
+/-- `get`: the download in flight is keyed by the cache file, the entry that is looked up is the one named by the
+ETag `head` answered, the entry that is written is named by the ETag of the GET response -/
+theorem tie_get_keys : Generated.cacheglue_getKeys =
+    ["t.cache.getFlight.Do(cacheFile)", "cacheFileFromEtag(cacheFile, initialEtag)", "os.Stat(etagFile)",
+     "cacheFileFromEtag(cacheFile, finalEtag)"] := rfl
+
+/-- `retrieveAndSaveFile` returns the error of `io.Copy` (`Cfg.copyErrKept`): the copying closure has an unnamed
+result, its deferred calls are plain `Close`s — no deferred function assigns to a result —, the copy error is
+returned by the closure and by the function -/
+theorem tie_copy_error_kept : Generated.cacheglue_copyClosureResults = "(error)" ∧
+    Generated.cacheglue_copyClosureDefers = ["tmp.Close()", "resp.Body.Close()"] ∧
+    Generated.cacheglue_copyDeferAssignsResult = [] ∧
+    Generated.cacheglue_copyErrReturn =
+      "_, err := io.Copy(tmp, resp.Body); err != nil => return fmt.Errorf(\"unable to write to cache file: %w\", err)" ∧
+    Generated.cacheglue_copyClosureCall = "err := <closure>(); err != nil => return \"\", err" ∧
+    Generated.cacheglue_retrieveResults = "(string, error)" ∧
+    Generated.cacheglue_retrieveDefers = ["span.End()"] := ⟨rfl, rfl, rfl, rfl, rfl, rfl, rfl⟩
+
+/-- `fetchOffline` drops the unadvertised temp files before it chooses the newest entry (`Cfg.offlineSkipsTmp`,
+fix F19e; the pattern of the temp names is `tie_temp_patterns`) -/
+theorem tie_offline_skips_tmp : Generated.cacheglue_offlineDrops =
+    ["des: return strings.HasSuffix(de.Name(), \".tmp\")"] := rfl
+
+/-- every `*apk.Cache` with a HEAD memo is made inside a function, per invocation (the CLI commands); the one value
+that lives as long as the process, `options.Default.SharedCache`, has none -/
+theorem tie_new_cache_sites : Generated.cacheglue_newCacheSites =
+    ["internal/cli/build.go: func: apk.NewCache(true)",
+     "internal/cli/dot.go: func: apk.NewCache(true)",
+     "internal/cli/lock.go: func: apk.NewCache(true)",
+     "internal/cli/publish.go: func: apk.NewCache(true)",
+     "internal/cli/show-config.go: func: apk.NewCache(true)",
+     "internal/cli/show-packages.go: func: apk.NewCache(true)",
+     "pkg/options/options.go: package-level var: apk.NewCache(false)"] := rfl
+
+/-- `expandPackage`: a package location that maps to no cache directory fails the fetch (the package is never
+cached under a directory the cache was not given: `cachePackage` is only ever called with the directory
+`cacheDirForPackage` returned) -/
+theorem tie_expandPackage_cache_dir : Generated.cacheglue_cacheDirForPackageErr =
+    "cacheDir, err = cacheDirForPackage(a.cache.dir, pkg); err != nil => return nil, err" ∧
+    Generated.cacheglue_cachePackageCalls = ["a.cachePackage(ctx, pkg, exp, cacheDir)"] := ⟨rfl, rfl⟩
 
 end Apko.C19
